@@ -120,6 +120,20 @@ def run(ctx):
     except Exception as e:
         got = impl.errname(e)
     ctx.q('expectstate', 'expectstate 1 %s 0 %s' % (H.erows_ops(rows), H.erows_ops(rows)), got)
+    # (the pinned code refuses mixed receivers; should a version accept them, the number it returns must be Tr(rho sigma) all the same)
+    for _ in range(ctx.budget(60, 600)):
+        n = rng.choice([2, 3, 3, 4])
+        rowsm, rm = G.rand_tableau(rng, n, rng.randrange(1, n))
+        rows2, r2 = G.rand_tableau(rng, n)
+        try:
+            ovm = float(impl.state(rowsm, rm).expect(impl.state(rows2, r2)))
+        except Exception:
+            ctx.count('mixed-receiver:refused')
+            continue
+        ctx.count('mixed-receiver:accepted')
+        trm = float(np.real(np.trace(O.dense_state(rowsm[rm:n], n) @ O.dense_state(rows2[r2:n], n))))
+        if abs(trm - ovm) > 1e-9:
+            ctx.fail('StabilizerState.expect(StabilizerState)', 'a mixed receiver (rank %d) is accepted and the overlap returned is %s, Tr(rho sigma) = %s' % (rm, ovm, trm), dict(rows=rowsm, r=rm, rows2=rows2, r2=r2))
     # bit-string probabilities
     for _ in range(ctx.budget(60, 600)):
         n = rng.choice([1, 2, 3, 4, 5])
